@@ -2,6 +2,7 @@
 C01 — Lossless one-shot round trip.  (first theorems; more in later commits)
 -/
 import ZstdVerif.Model.Frame
+import ZstdVerif.Model.Rep
 namespace ZstdVerif.Props.C01
 open ZstdVerif
 
@@ -15,6 +16,108 @@ theorem overflow_sticky (r : BitR) (n : Nat) (h : r.over = true) : (r.read n).2.
 
 theorem overflow_never_atEnd (r : BitR) (h : r.over = true) : r.atEnd = false := by
   unfold BitR.atEnd; simp [h]
+
+/-! ### repeat offsets: encoder and decoder stay in lockstep -/
+
+open Rep in
+/-- **rep_lockstep**: for every history of non-zero repeat offsets, every raw offset ≥ 1 and either literal-length case, the decoder's
+resolution of the offBase the compressor stores (ZSTD_finalizeOffBase) yields exactly that raw offset, and the decoder's new history
+equals the compressor's (ZSTD_updateRep): the two sides can never drift apart, whatever sequence of matches is coded. -/
+theorem rep_lockstep (r : Rep.R) (raw : Nat) (ll0 : Bool) (h0 : 1 ≤ r.r0) (h1 : 1 ≤ r.r1) (h2 : 1 ≤ r.r2) (hr : 1 ≤ raw) :
+    resolve r (finalizeOffBase raw r ll0) (if ll0 then 1 else 0) = (raw, updateRep r (finalizeOffBase raw r ll0) ll0) := by
+  obtain ⟨a, b, c⟩ := r
+  simp only at h0 h1 h2
+  unfold finalizeOffBase
+  cases ll0 <;> simp only [Bool.not_false, Bool.not_true, Bool.true_and, Bool.false_and, if_true, if_false, Bool.false_eq_true]
+  · -- literal length > 0
+    by_cases e0 : raw = a
+    · subst e0; simp [resolve, updateRep]
+    · by_cases e1 : raw = b
+      · subst e1; simp [e0, resolve, updateRep]; omega
+      · by_cases e2 : raw = c
+        · subst e2; simp [e0, e1, resolve, updateRep]; omega
+        · have : raw + 3 > 3 := by omega
+          simp [e0, e1, e2, resolve, updateRep, this]
+  · -- literal length = 0: the codes shift by one, rep[0] - 1 becomes reachable
+    by_cases e1 : raw = b
+    · subst e1; simp [resolve, updateRep]
+    · by_cases e2 : raw = c
+      · subst e2; simp [e1, resolve, updateRep]; omega
+      · by_cases e3 : raw = a - 1
+        · subst e3; simp [e1, e2, resolve, updateRep]; omega
+        · have : raw + 3 > 3 := by omega
+          simp [e1, e2, e3, resolve, updateRep, this]
+
+/-! ### length codes: every length is representable by its code -/
+
+open Rep Gen in
+/-- what the sequence coder relies on: the code's base is at most the value and the remainder fits in the code's extra bits -/
+def CodeOk (base bits : List Nat) (code v : Nat) : Prop := base.getD code 0 ≤ v ∧ v < base.getD code 0 + 2 ^ bits.getD code 0
+
+theorem log2_bounds (n : Nat) (h : n ≠ 0) : 2 ^ Nat.log2 n ≤ n ∧ n < 2 ^ (Nat.log2 n + 1) :=
+  ⟨Nat.log2_self_le h, Nat.lt_log2_self⟩
+
+open Rep Gen in
+/-- **ll_code_roundtrip**: for every literal length below 2^17 (a block holds at most 2^17 bytes), LL_base[code] ≤ ll < LL_base[code] + 2^LL_bits[code]:
+the decoder's `base + extra bits` reproduces the length -/
+theorem ll_code_roundtrip (ll : Nat) (h : ll < 2 ^ 17) : CodeOk LL_base LL_bits (llCode ll) ll := by
+  unfold llCode CodeOk
+  by_cases hs : ll > 63
+  · rw [if_pos hs]
+    have hb := log2_bounds ll (by omega)
+    -- log2 ll ∈ 6..16: the table rows 25..35 are 2^h with h extra bits
+    have hlo : 6 ≤ Nat.log2 ll := by
+      rcases Nat.lt_or_ge (Nat.log2 ll) 6 with hc | hc
+      · have h1 : Nat.log2 ll + 1 ≤ 6 := by omega
+        have h2 := Nat.pow_le_pow_right (by decide : 0 < 2) h1
+        omega
+      · exact hc
+    have hhi : Nat.log2 ll ≤ 16 := by
+      rcases Nat.lt_or_ge 16 (Nat.log2 ll) with hc | hc
+      · have h1 : 17 ≤ Nat.log2 ll := by omega
+        have h2 := Nat.pow_le_pow_right (by decide : 0 < 2) h1
+        omega
+      · exact hc
+    have tab : ∀ k, k < 17 → 6 ≤ k → LL_base.getD (k + LL_deltaCode) 0 = 2 ^ k ∧ LL_bits.getD (k + LL_deltaCode) 0 = k := by decide
+    obtain ⟨t1, t2⟩ := tab _ (by omega) hlo
+    rw [t1, t2]
+    have : 2 ^ Nat.log2 ll + 2 ^ Nat.log2 ll = 2 ^ (Nat.log2 ll + 1) := by rw [Nat.pow_succ]; omega
+    omega
+  · rw [if_neg hs]
+    have hlt : ll < 64 := by omega
+    have tab : ∀ v, v < 64 → LL_base.getD (LL_Code.getD v 0) 0 ≤ v ∧ v < LL_base.getD (LL_Code.getD v 0) 0 + 2 ^ LL_bits.getD (LL_Code.getD v 0) 0 := by decide
+    exact tab ll hlt
+
+open Rep Gen in
+/-- **ml_code_roundtrip**: the same for match lengths (mlBase = matchLength - 3 < 2^17) -/
+theorem ml_code_roundtrip (m : Nat) (h : m < 2 ^ 17) : CodeOk ML_base ML_bits (mlCode m) (m + 3) := by
+  unfold mlCode CodeOk
+  by_cases hs : m > 127
+  · rw [if_pos hs]
+    have hb := log2_bounds m (by omega)
+    have hlo : 7 ≤ Nat.log2 m := by
+      rcases Nat.lt_or_ge (Nat.log2 m) 7 with hc | hc
+      · have h1 : Nat.log2 m + 1 ≤ 7 := by omega
+        have h2 := Nat.pow_le_pow_right (by decide : 0 < 2) h1
+        omega
+      · exact hc
+    have hhi : Nat.log2 m ≤ 16 := by
+      rcases Nat.lt_or_ge 16 (Nat.log2 m) with hc | hc
+      · have h1 : 17 ≤ Nat.log2 m := by omega
+        have h2 := Nat.pow_le_pow_right (by decide : 0 < 2) h1
+        omega
+      · exact hc
+    have tab : ∀ k, k < 17 → 7 ≤ k → ML_base.getD (k + ML_deltaCode) 0 = 2 ^ k + 3 ∧ ML_bits.getD (k + ML_deltaCode) 0 = k := by decide
+    obtain ⟨t1, t2⟩ := tab _ (by omega) hlo
+    rw [t1, t2]
+    have : 2 ^ Nat.log2 m + 2 ^ Nat.log2 m = 2 ^ (Nat.log2 m + 1) := by rw [Nat.pow_succ]; omega
+    omega
+  · rw [if_neg hs]
+    have hlt : m < 128 := by omega
+    have tab : ∀ v, v < 128 → ML_base.getD (ML_Code.getD v 0) 0 ≤ v + 3 ∧ v + 3 < ML_base.getD (ML_Code.getD v 0) 0 + 2 ^ ML_bits.getD (ML_Code.getD v 0) 0 := by decide
+    exact tab m hlt
+
+example : Rep.resolve ⟨1, 4, 8⟩ (Rep.finalizeOffBase 4 ⟨1, 4, 8⟩ false) 0 = (4, ⟨4, 1, 8⟩) := by decide
 
 example : (BitR.init (ByteArray.mk #[0x05]) 0 1).toOption.map (·.left) = some 2 := by decide
 
